@@ -26,7 +26,9 @@ import (
 
 const outsider = 4 // key index that is never a member of any validator set
 
-var listCodes = map[string][]int{"A": {0, 1, 2}, "B": {3, 1, 2}, "C": {0, 1, 2, 3}}
+var listCodes = map[string][]int{"A": {0, 1, 2}, "B": {3, 1, 2}, "C": {0, 1, 2, 3},
+	// hand-over family: larger sets that shrink / grow across a len/2 boundary
+	"P": {0, 1, 2, 3, 4, 5, 6}, "Q": {0, 1, 2, 3, 4}, "R": {6, 2, 4}}
 
 // ---------------------------------------------------------------------------------------------
 // header construction
@@ -217,6 +219,9 @@ func (m *model) listsAt(p *mnode, n uint64) []string {
 	switch m.rt.Family {
 	case posa.Parlia, posa.Congress:
 		if n%m.epoch == 0 {
+			if m.epochLists != nil {
+				return m.epochLists
+			}
 			return []string{"A", "B", "C"}
 		}
 	case posa.Clique:
@@ -520,9 +525,36 @@ func loadInto(sim *hsenv.Sim, d polyenv.Dump) {
 	}
 }
 
-func explore(r *ev.Run, env *hsenv.Env, m *model, sims chan *hsenv.Sim, base polyenv.Dump, chain uint64, gnode *mnode, graw []byte, depth, workers int) mc.Stats {
+// famOpt turns explore into a directed family: an honest in-turn backbone of `backbone` headers is synced first; the BFS
+// starts from every backbone prefix from index `from` on and only offers (sealer, difficulty) events on the most
+// recently stored header (no malformations, no forks below the tip).
+type famOpt struct {
+	name     string
+	backbone int
+	from     int
+	nkeys    int // sealers k0..k(nkeys-1); the last one is the outsider
+}
+
+// tipEvents: every sealer with both difficulties on top of the newest stored header.
+func (m *model) tipEvents(s state, nkeys int) []string {
+	p := s.nodes[len(s.nodes)-1]
+	lc := m.listsAt(p, p.height+1)[0]
+	var evs []string
+	for k := 0; k < nkeys; k++ {
+		for _, d := range []int64{2, 1} {
+			evs = append(evs, p.label+"|"+encodeSpec(spec{signer: k, diff: d, vote: -1}, lc))
+		}
+	}
+	return evs
+}
+
+func explore(r *ev.Run, env *hsenv.Env, m *model, sims chan *hsenv.Sim, base polyenv.Dump, chain uint64, gnode *mnode, graw []byte, depth, workers int, opt *famOpt) mc.Stats {
 	rt := m.rt
 	tag := rt.Name
+	ctag := tag // class prefix
+	if opt != nil {
+		ctag = tag + ":" + opt.name
+	}
 	sim := <-sims
 	sim.Load(base)
 	res := sim.Exec(env.GenesisTx(chain, graw), 2, 200)
@@ -543,8 +575,8 @@ func explore(r *ev.Run, env *hsenv.Env, m *model, sims chan *hsenv.Sim, base pol
 	report := func(s state, path []string) {
 		for _, p := range s.probs {
 			r.Violation(tag+"/"+p.Key, map[string]any{"router": tag, "events": path, "what": p.Detail,
-				"note": "event = <parent label>|k<sealing key>d<difficulty>[L<list: A=k0,k1,k2 B=k3,k1,k2 C=k0..k3 S=signers in force>][v+N / v-N clique vote][!malformation][?orphan]; " +
-					"trust root G at height " + strconv.FormatUint(rootH, 10) + " lists k0,k1,k2; model epoch " + strconv.FormatUint(m.epoch, 10)})
+				"note": "event = <parent label>|k<sealing key>d<difficulty>[L<list: A=k0,k1,k2 B=k3,k1,k2 C=k0..k3 P=k0..k6 Q=k0..k4 R=k6,k2,k4 S=signers in force>][v+N / v-N clique vote][!malformation][?orphan]; " +
+					"trust root G at height " + strconv.FormatUint(rootH, 10) + " lists " + fmt.Sprint(gnode.sp.list) + "; model epoch " + strconv.FormatUint(m.epoch, 10)})
 		}
 	}
 	report(init, nil)
@@ -552,7 +584,12 @@ func explore(r *ev.Run, env *hsenv.Env, m *model, sims chan *hsenv.Sim, base pol
 		Init:     []state{init},
 		MaxDepth: depth,
 		Workers:  workers,
-		Events:   func(s state, d int) []string { return m.events(s) },
+		Events: func(s state, d int) []string {
+			if opt != nil {
+				return m.tipEvents(s, opt.nkeys)
+			}
+			return m.events(s)
+		},
 		Key:      func(s state) string { return s.hskey },
 		Stop:     r.Expired,
 		Step: func(s state, evn string) (state, bool) {
@@ -585,7 +622,7 @@ func explore(r *ev.Run, env *hsenv.Env, m *model, sims chan *hsenv.Sim, base pol
 			r.Eval()
 			nx := state{nodes: s.nodes, head: s.head}
 			if res.Panic != nil {
-				r.Class(tag + ":panic")
+				r.Class(ctag + ":panic")
 				r.Note("panics_observed", fmt.Sprint(res.Panic))
 				res.OK = false
 			}
@@ -677,7 +714,7 @@ func explore(r *ev.Run, env *hsenv.Env, m *model, sims chan *hsenv.Sim, base pol
 					nx.class = append(nx.class, "accept-list-header")
 				}
 				set := m.inEffect(p)
-				if !sameSet(set, listCodes["A"]) || len(set) != 3 {
+				if !sameSet(set, gnode.sp.list) {
 					nx.class = append(nx.class, "accept-under-new-set")
 				}
 				me := v.Stored[hx]
@@ -703,10 +740,10 @@ func explore(r *ev.Run, env *hsenv.Env, m *model, sims chan *hsenv.Sim, base pol
 		},
 		Check: func(prev state, evn string, next state, path []string) {
 			for _, c := range next.class {
-				r.Class(tag + ":" + c)
+				r.Class(ctag + ":" + c)
 			}
 			if len(next.class) > 0 {
-				r.Case(tag + "/" + strings.Join(next.class, ","))
+				r.Case(ctag + "/" + strings.Join(next.class, ","))
 			}
 			if len(next.probs) > 0 {
 				report(next, path)
@@ -715,6 +752,30 @@ func explore(r *ev.Run, env *hsenv.Env, m *model, sims chan *hsenv.Sim, base pol
 				r.Sample(map[string]any{"router": tag, "events": path, "classes": next.class})
 			}
 		},
+	}
+	if opt != nil {
+		// honest in-turn backbone; every prefix from opt.from on is a start state
+		cur := init
+		cfg.Init = nil
+		for i := 0; i < opt.backbone; i++ {
+			tip := cur.nodes[len(cur.nodes)-1]
+			hs := m.honest(tip, -1)
+			if len(hs) == 0 {
+				r.HarnessError("%s/%s: no honest successor at height %d", tag, opt.name, tip.height+1)
+			}
+			evn := tip.label + "|" + encodeSpec(hs[0], m.listsAt(tip, tip.height+1)[0])
+			nx, _ := cfg.Step(cur, evn)
+			if len(nx.nodes) != len(cur.nodes)+1 {
+				r.HarnessError("%s/%s: honest backbone header %s rejected", tag, opt.name, evn)
+			}
+			if len(nx.probs) > 0 {
+				report(nx, []string{"backbone", evn})
+			}
+			cur = nx
+			if i+1 >= opt.from {
+				cfg.Init = append(cfg.Init, cur)
+			}
+		}
 	}
 	return mc.BFS(cfg)
 }
